@@ -1,1 +1,18 @@
 import RaftLogModel.Props.C07
+open RaftLog
+#print axioms c07_refines_noCache
+#print axioms c07_refinesNoCache_step
+#print axioms c07_readInv_spec
+#print axioms c07_resident_or_on_disk
+#print axioms c07_boundary_written
+#print axioms c07_read_of_inv
+#print axioms c07_inv_fresh
+#print axioms c07_inv_call
+#print axioms c07_inv_flush
+#print axioms c07_inv_worker
+#print axioms c07_inv_workerIdle
+#print axioms c07_inv_drain
+#print axioms c07_inv_reachable
+#print axioms c07_reads_partial
+#print axioms c07_worker_steps_invisible
+#print axioms c07_cache_limits_invisible
